@@ -26,6 +26,10 @@ CLAIMS = {
          "Decides structural necessary conditions for both part.Partition implementations: no sub-64-bit multiply/add/shift or narrowing on values derived from Start/Size/End in WriteContents/ReadContents/GetStart/GetSize; the size test dominates the device write and success requires total == size; the bytes handed to the output writer are clamped by the remaining size (or chunk and sector size are the same constant); verifyBlockCopy turns digest inequality into an error and CopyPartitionRaw propagates read/write/verify errors. Does not decide which bytes are moved.",
          "Path-insensitive; the mbr clamp exemption relies on deep provenance showing chunk length and sector multiplier are the same constant.",
          "DESIGN.md §4 C13"),
+ "C10": ("SSA analysis of the whence switch, dominance of closed/negative guards, per-addend provenance (data + selecting-condition dependence) of the returned count",
+         "Decides structural necessary conditions for all four filesystem.File implementations, cross-checked as siblings: Seek arms are offset / cursor+offset / size+offset with no subtraction; a negative target is rejected before the cursor store; Close stores a sentinel that Read and Seek test before any other field access; every addend of Read's returned count and every placement into the caller's buffer depends on both size and cursor (so it cannot exceed what remains by construction of a min/clamp); io.EOF is selected by a size/cursor comparison and the cursor advances by the count's addends. Does not decide which bytes are returned.",
+         "Dependence is data flow plus the conditions selecting phi values; a clamp that is present but arithmetically wrong (e.g. off by one) is not seen.",
+         "DESIGN.md §4 C10"),
 }
 
 NOT_APPLICABLE = {
